@@ -29,6 +29,7 @@ type Job struct {
 	prefix      []PrefixStep
 	prefixFresh bool
 	parent      *Job
+	pathCount   int64 // of the root job: paths of the job and all its sub-jobs
 }
 
 func (j *Job) String() string {
@@ -106,6 +107,7 @@ type RunConfig struct {
 	TLimitMs    int
 	MaxPaths    int
 	StopAfter   time.Duration
+	NarrowAfter int           // paths per job (sub-jobs included) after which new decisions keep one alternative only
 	HardStop    time.Duration // wall-clock limit of the whole exploration, violation or not
 }
 
@@ -279,7 +281,14 @@ func (wk *Worker) runJob(job *Job) *JobResult {
 		g.Count++
 	}
 	validated := 0
+	root := job
+	for root.parent != nil {
+		root = root.parent
+	}
 	for {
+		if wk.cfg.NarrowAfter > 0 && atomic.AddInt64(&root.pathCount, 1) > int64(wk.cfg.NarrowAfter) {
+			ex.Narrow = true
+		}
 		in := newInterp(wk.w, tt, ex, job, res.Funcs)
 		ex.beginRun()
 		out := runPath(in, h, job.Args)
